@@ -7,7 +7,7 @@
 (* EVERY byte offset is a non-boundary in some probe.  The short alphabet   *)
 (* of MC_Fuzz has no multi-byte character and no string longer than three   *)
 (* bytes; an error path that cuts or formats the rejected text at a fixed   *)
-(* byte offset (seeded S50) is invisible there.  Also ill-formed tails:     *)
+(* byte offset (seeded S49) is invisible there.  Also ill-formed tails:     *)
 (* each probe with its last byte dropped.  One TLC state per target.        *)
 (***************************************************************************)
 EXTENDS Hostile, Json
